@@ -187,6 +187,23 @@ m("c10_mut_remove", "C10", r"C10\.MUT:mutator-set", "a remove_template API that 
     }
 
     fn get_template_priority(&self, name: &str) -> usize {""")
+m("c10_mut_skip_finalize", "C10", r"C10\.MUT:tera::Tera::add_raw_templates:reaches-finalize", "big batches skip finalize",
+  "tera/src/tera.rs", """                inserted.push((key, previous));
+            }
+            self.finalize_templates()
+        })();
+
+        if result.is_err() {
+            // Undo in reverse""", """                inserted.push((key, previous));
+            }
+            if inserted.len() > 1000 {
+                return Ok(());
+            }
+            self.finalize_templates()
+        })();
+
+        if result.is_err() {
+            // Undo in reverse""")
 # ---------------------------------------------------------------- C20
 m("c20_url_plus", "C20", r"C20\.URL:urlencode:set", "'+' no longer percent-encoded",
   "tera-contrib/src/urlencode.rs", "    .add(b'+')\n", "")
@@ -277,9 +294,36 @@ m("c12_setsrc_dropped", "C12", r"C12\.SETSRC:Template::new", "syntax errors retu
                     if tpl_name.is_empty() {
                         s.set_source(tpl_name, source);
                     }""")
+# ---------------------------------------------------------------- C16 / C17 / R-PANIC
+m("c16_first_index", "C16", r"(R-PANIC\.coll:filters::first|C16\.ORDUSE:first)", "first indexes the array directly",
+  "tera/src/filters.rs", "__SPECIAL_FIRST__", "")
+m("c16_sort_partial", "C16", r"(C16\.ORDUSE:sort:comparator|R-PANIC\.coll:filters::sort)", "sort compares with partial_cmp().unwrap()",
+  "tera/src/filters.rs", "        out.sort_by(|a, b| a.cmp(b));", "        out.sort_by(|a, b| a.partial_cmp(b).unwrap());")
+m("c17_int_base", "C17", r"C17\.PRE:int:from_str_radix-base", "int filter no longer validates the base",
+  "tera/src/filters.rs", "    if !(2..=36).contains(&base) {", "    if base == 1 {")
+m("c17_range_cap", "C17", r"C17\.PRE:range:len-capped", "range cap test weakened",
+  "tera/src/functions.rs", "    if len > MAX_RANGE_LEN as i128 {", "    if len > i128::MAX - 1 {")
+m("c17_iterable_bytes", "C17", r"C17\.ITERABLE", "iterable test forgets bytes",
+  "tera/src/tests.rs", "    val.is_map() || val.is_array() || val.is_string() || val.is_bytes()", "    val.is_map() || val.is_array() || val.is_string()")
+m("c07_panic_vm_unwrap", "C07", r"R-PANIC\.render:.*interpret\|K2\|unwrap", "a new unwrap in the VM's Negative arm",
+  "tera/src/vm/interpreter.rs", """                Instruction::Not => {
+                    let (a, a_span) = state.stack.pop();
+                    state.stack.push(Value::from(!a.is_truthy()), a_span);""", """                Instruction::Not => {
+                    let (a, a_span) = state.stack.pop();
+                    let _ = a.as_bool().unwrap();
+                    state.stack.push(Value::from(!a.is_truthy()), a_span);""")
+m("c06_panic_parser_index", "C06", r"R-PANIC\.parse:.*parse_tag", "parser indexes the body context stack",
+  "tera/src/parsing/parser.rs", """            Token::Ident("for") => {
+                let node = self.parse_for_loop()?;""", """            Token::Ident("for") => {
+                let _ = self.body_contexts[0];
+                let node = self.parse_for_loop()?;""")
 
 
 def apply(src, old, new, count, name):
+    if old == "__SPECIAL_FIRST__":
+        a = "    Ok(val.first().cloned().unwrap_or(Value::none()))"
+        assert src.count(a) == 1
+        return src.replace(a, "    if val.is_empty() {\n        return Ok(Value::none());\n    }\n    Ok(val[0].clone())")
     if old == "__SPECIAL_KEY_F64__":
         i = src.index("    fn serialize_f64(self, _v: f64) -> Result<Self::Ok, Self::Error> {\n        Err(SerializationFailed(")
         j = src.index("    }\n", i)
